@@ -789,8 +789,36 @@ def r_root_ids(repo, rep, R, table_info):
               'root categories are not registered through the category table')
 
 
+def r_config_once(repo, rep, R):
+    """the options of a call are read into the search configuration once, before the first sentence: the reader may
+    consume the option dictionary (pop), so reading it again per sentence silently falls back to the defaults from the
+    second sentence on"""
+    mod = pyx.load(repo)
+    run = mod.get('run')
+    ic = mod.get('init_config')
+    calls = [c for c in ast.walk(run) if isinstance(c, ast.Call) and isinstance(c.func, ast.Name) and c.func.id == ic.name]
+    consumes = any(isinstance(c, ast.Call) and isinstance(c.func, ast.Attribute) and c.func.attr in ('pop', 'popitem', 'clear') for c in ast.walk(ic))
+    w = '%s:%s run' % (REL, calls[0].lineno if calls else run.lineno)
+    if not calls:
+        raise AnalysisError('%s: run does not call %s' % (REL, ic.name))
+    in_loop = []
+    for c in calls:
+        p_ = getattr(c, '_parent', None)
+        while p_ is not None and p_ is not run:
+            if isinstance(p_, (ast.For, ast.While)):
+                in_loop.append(c)
+                break
+            p_ = getattr(p_, '_parent', None)
+    rep.check(len(calls) == 1 and not in_loop, R, w, 'run:config-once',
+              'the search configuration is filled once per call, before the sentence loop',
+              'the options are read %s: %s' % ('inside the sentence loop' if in_loop else '%d times' % len(calls),
+                                               'the reader removes what it reads from the option dictionary, so every sentence after the first is parsed with the default '
+                                               'penalty / beam / n-best settings' if consumes else 'sentences of one call may be parsed with different settings'))
+
+
 def r_config_plumbing(repo, rep, R):
     """option names travel unchanged: parsing.run kwargs -> _parsing.run(**kwargs) -> init_config -> struct config."""
+    r_config_once(repo, rep, R)
     mod = pyx.load(repo)
     ic = mod.get('init_config')
     cfgp, kwp = [a.arg for a in ic.args.args][:2]
